@@ -1006,6 +1006,628 @@ def _dead_validators(ctx):
     ctx.guarded(o, body)
 
 
-def _leaf_semantics(ctx): pass
-def _none_zero(ctx): pass
-def _search(ctx): pass
+# ====================================================================================================== leaf calendars
+def _param_field(ctx, init, param):
+    """field of self that __init__ stores the (unchanged) parameter into; None if there is not exactly one"""
+    ex = Expander(ctx.prog, init, ctx.typer)
+    cfg = cfg_of(init)
+    hits = []
+    for st, tgt, val in facts.attr_stores(init):
+        if val is not None and _name(tgt.value, init.params[0]) and _name(ex.expand(val, cfg.node_of(st)), param):
+            hits.append((st, tgt.attr))
+    return hits[0] if len(hits) == 1 else None
+
+
+def _bounded(ctx, o, cls, out_value, in_check):
+    """get_available_units of a calendar with a validity [start, end]: in_check(value expr) inside (bounds included),
+    the constant out_value outside; an absent bound does not restrict"""
+    prog = ctx.prog
+    init = prog.func(f'calendar.{cls}.__init__')
+    f = prog.func(f'calendar.{cls}.get_available_units')
+    fs, fe = _param_field(ctx, init, 'start'), _param_field(ctx, init, 'end')
+    if fs is None or fe is None:
+        o.undecided(init, init.node, f'{cls}:bounds', "start / end are not stored unchanged into one field each")
+        return
+    date = f.params[1]
+    ex = Expander(prog, f, ctx.typer)
+    S, E = _e(f"{f.params[0]}.{fs[1]}"), _e(f"{f.params[0]}.{fe[1]}")
+    pos_name = {5: 'before start', 10: 'exactly at start', 15: 'strictly inside', 20: 'exactly at end', 25: 'after end'}
+    ok = True
+    for s, e, d in itertools.product((None, 10), (None, 20), (5, 10, 15, 20, 25)):
+        inside = (s is None or d >= s) and (e is None or d <= e)
+        case = f"date {pos_name[d]}" + (", no start" if s is None else '') + (", no end" if e is None else '')
+        r = run_block(f.body, Ev([(S, s, 'exact'), (E, e, 'exact'), (_e(date), d, 'exact')]), ex)
+        if r.kind == 'unknown':
+            o.undecided(f, r.stmt, r.stmt, f"{cls}.get_available_units ({case}): {r.why}")
+            return
+        if r.kind == 'wouldraise':
+            o.refute(f, r.stmt, r.stmt, f"{cls}.get_available_units raises TypeError ({case}): {r.why}")
+            return
+        if r.kind != 'return':
+            o.refute(f, f.node, f"{cls}:{case}", f"{cls}.get_available_units returns nothing ({case})")
+            return
+        if inside:
+            msg = in_check(r.value, f)
+            if msg is not None:
+                kind, text = msg
+                (o.refute if kind == 'bad' else o.undecided)(
+                    f, r.stmt, r.stmt, f"{cls} ({case}) returns `{src(r.value)[:60]}`: {text}")
+                return
+        else:
+            v = r.value
+            good = isinstance(v, ast.Constant) and not isinstance(v.value, bool) and (
+                (out_value is None and v.value is None) or (out_value is not None and v.value is not None and v.value == out_value))
+            if not good:
+                o.refute(f, r.stmt, r.stmt, f"{cls} ({case}) returns `{src(v)[:60]}` outside its validity, expected {out_value}")
+                return
+    if ok:
+        o.site(f, f.node, f"{cls}: configured value on [start, end] (bounds included, absent bound = unbounded), {out_value} outside")
+
+
+def _weekly_table(ctx, o, field):
+    prog = ctx.prog
+    f = prog.func('calendar.WeeklyCalendar.__init__')
+    ex = Expander(prog, f, ctx.typer)
+    cfg = cfg_of(f)
+    stores = _field_stores(ctx, f, field, 'mapping')
+    n = 0
+    for stmt, entries in stores:
+        if entries is None:
+            o.undecided(f, stmt, stmt, "store into the day table in a shape the rule does not understand")
+            continue
+        for en in entries:
+            if en.kind in ('empty', 'state'):
+                continue
+            if en.kind == 'comp':
+                binds = [(en.target, en.it)]
+            elif en.kind == 'pair':
+                sn = cfg.node_of(stmt)
+                binds = [(fo.target, ex.expand(fo.iter, cfg.node_of(fo))) for fo in (cfg.enclosing_fors(sn) if sn else [])]
+            else:
+                o.undecided(f, stmt, stmt, "day table copied wholesale from another mapping")
+                continue
+            key = en.key
+            b = next(((t, it) for t, it in binds if isinstance(t, ast.Name) and _name(key, t.id)), None)
+            if b is None:
+                o.undecided(f, stmt, stmt, "day table key is not a loop variable")
+                continue
+            i = b[0].id
+            mr = match("range($*a)", b[1])
+            if not mr or not all(facts.const_num(x) is not None for x in mr['a']):
+                o.undecided(f, stmt, b[1], "day table is not filled over a constant range")
+                continue
+            days = list(range(*[int(facts.const_num(x)) for x in mr['a']]))
+            if sorted(days) != list(range(7)):
+                o.refute(f, stmt, b[1], f"the day table is filled for week days {days}, expected 0..6 (get_available_units indexes it by weekday())")
+                continue
+            form = 'list' if U.mentions(en.value, 'days') else 'dict'
+            cont = 'days' if form == 'list' else 'units_per_day'
+            want_in = _e('units_per_day') if form == 'list' else _e(f'units_per_day[{i}]')
+            res = {}
+            bad = None
+            for member in (True, False):
+                env = [(_e(f"{i} in {cont}"), member, 'exact'), (_e(f"{i} not in {cont}"), not member, 'exact'),
+                       (_e(f"{i} in {cont}.keys()"), member, 'exact'), (_e(f"{i} not in {cont}.keys()"), not member, 'exact')]
+                try:
+                    leaf = Ev(env).select(en.value)
+                except (U.Unknown, U.WouldRaise) as u:
+                    bad = ('unk', u.why)
+                    break
+                m = match("$d.get($k, $c)", leaf)
+                if m and form == 'dict' and _name(m['d'], 'units_per_day') and _name(m['k'], i):
+                    leaf = want_in if member else m['c']
+                res[member] = leaf
+            if bad:
+                o.undecided(f, stmt, stmt, f"day table value: {bad[1]}")
+                continue
+            k0 = facts.const_num(res[False])
+            if same(res[True], want_in) and k0 is not None and k0 == 0:
+                o.site(f, stmt, f"day table ({form} form): {src(want_in)} for configured week days, 0 otherwise, over 0..6")
+                n += 1
+            elif same(res[False], want_in) and facts.const_num(res[True]) == 0:
+                o.refute(f, stmt, stmt, f"day table ({form} form) is inverted: configured week days get 0 and the others get the units")
+            elif same(res[True], want_in):
+                o.refute(f, stmt, stmt, f"day table ({form} form): week days that are not configured get `{src(res[False])}`, expected 0")
+            elif facts.const_num(res[True]) is not None or isinstance(res[True], ast.Name) or isinstance(res[True], ast.Subscript):
+                o.refute(f, stmt, stmt, f"day table ({form} form): configured week days get `{src(res[True])}`, expected `{src(want_in)}`")
+            else:
+                o.undecided(f, stmt, stmt, f"day table ({form} form) value `{src(en.value)[:70]}`")
+    if n == 0 and not o.refuted and not o.unknown:
+        o.refute(f, f.node, 'day table', "WeeklyCalendar.__init__ never fills the day table")
+
+
+class _MemberEv(Ev):
+    """membership of any key in the given mapping field is the sample; remembers the keys that were tested"""
+
+    def __init__(self, field_expr, member):
+        super().__init__([])
+        self.field_expr, self.member, self.keys = field_expr, member, []
+
+    def lookup(self, e):
+        if isinstance(e, ast.Compare) and len(e.ops) == 1 and isinstance(e.ops[0], (ast.In, ast.NotIn)):
+            c = e.comparators[0]
+            m = match("$d.keys()", c)
+            if same(c, self.field_expr) or (m and same(m['d'], self.field_expr)):
+                self.keys.append(e.left)
+                return (self.member if isinstance(e.ops[0], ast.In) else not self.member), 'exact'
+        return None
+
+
+def _direct(ctx, o, field):
+    prog = ctx.prog
+    f = prog.func('calendar.DirectCalendar.get_available_units')
+    date = f.params[1]
+    ex = Expander(prog, f, ctx.typer)
+    F = _e(f"{f.params[0]}.{field}")
+
+    def midnight_of(x, name):
+        d = facts.is_midnight_of(x)
+        return d is not None and _name(d, name)
+    good = True
+    for member in (True, False):
+        ev = _MemberEv(F, member)
+        r = run_block(f.body, ev, ex)
+        if r.kind in ('unknown', 'wouldraise'):
+            o.undecided(f, r.stmt, r.stmt, f"DirectCalendar.get_available_units: {r.why}")
+            return
+        if r.kind != 'return':
+            o.refute(f, f.node, 'direct:return', "DirectCalendar.get_available_units does not return a value")
+            return
+        v = r.value
+        keys = list(ev.keys)
+        m = match("$d.get($k)", v) or match("$d.get($k, None)", v)
+        if m and same(m['d'], F):
+            keys.append(m['k'])
+            covered_both = True
+        else:
+            covered_both = False
+            if member:
+                m = match("$d[$k]", v)
+                if not (m and same(m['d'], F)):
+                    o.refute(f, r.stmt, r.stmt, f"DirectCalendar returns `{src(v)[:60]}` for a stored day, expected the stored value")
+                    return
+                keys.append(m['k'])
+            elif not (isinstance(v, ast.Constant) and v.value is None):
+                o.refute(f, r.stmt, r.stmt, f"DirectCalendar returns `{src(v)[:60]}` for a day without an entry, expected None")
+                return
+        if not keys:
+            o.undecided(f, r.stmt, r.stmt, "DirectCalendar lookup without a recognisable key")
+            return
+        for k in keys:
+            if not midnight_of(k, date):
+                o.refute(f, r.stmt, k, f"DirectCalendar looks the date up as `{src(k)[:60]}`, expected midnight({date}): "
+                                       f"a query with a time of day misses the entry of its day")
+                return
+        if covered_both:
+            break
+    o.site(f, f.node, f"DirectCalendar: value stored for midnight({date}), None without an entry")
+    # ---- writers key by midnight
+    ci = prog.cls('DirectCalendar')
+    for w in list(ci.methods.values()) + list(ci.setters.values()):
+        stores = _field_stores(ctx, w, field, 'mapping')
+        cfg = cfg_of(w)
+        exw = Expander(prog, w, ctx.typer)
+        for stmt, entries in stores:
+            if entries is None:
+                o.undecided(w, stmt, stmt, "store into the table in a shape the rule does not understand")
+                continue
+            okk, n = True, 0
+            for en in entries:
+                if en.kind in ('empty', 'state'):
+                    continue
+                n += 1
+                if en.kind == 'whole':
+                    okk = False
+                    if isinstance(en.expr, ast.Name) and en.expr.id in w.params:
+                        o.refute(w, stmt, stmt, f"DirectCalendar.{w.name} stores the keys of `{src(en.expr)}` as given: dates with a time of "
+                                                f"day are not normalised to midnight, so get_available_units never finds them")
+                    else:
+                        o.undecided(w, stmt, stmt, f"table filled from `{src(en.expr)[:60]}`")
+                    continue
+                binds = [(en.target, en.it)] if en.kind == 'comp' else []
+                sn = cfg.node_of(stmt) or cfg.node_containing(stmt)
+                binds += [(fo.target, exw.expand(fo.iter, cfg.node_of(fo))) for fo in (cfg.enclosing_fors(sn) if sn else [])]
+                kv = None
+                for t, it in binds:
+                    b = U.items_binding(t, it)
+                    if b and b[0] is not None and b[1] is not None:
+                        kv = b
+                if kv is None:
+                    okk = False
+                    o.undecided(w, stmt, stmt, "table entries are not taken from `for k, v in <mapping>.items()`")
+                    continue
+                k, v, D = kv
+                if midnight_of(en.key, k) and _name(en.value, v):
+                    continue
+                okk = False
+                if _name(en.key, k):
+                    o.refute(w, stmt, stmt, f"DirectCalendar.{w.name} stores the key `{k}` as given: dates with a time of day are not "
+                                            f"normalised to midnight, so get_available_units never finds them")
+                elif not _name(en.value, v) and midnight_of(en.key, k):
+                    o.refute(w, stmt, stmt, f"DirectCalendar.{w.name} stores `{src(en.value)[:50]}` instead of the configured value `{v}`")
+                else:
+                    o.undecided(w, stmt, stmt, f"table key `{src(en.key)[:60]}`")
+            if okk and n:
+                o.site(w, stmt, f"DirectCalendar.{w.name}: entries keyed by midnight(date), values as given")
+
+
+def _leaf_semantics(ctx):
+    prog = ctx.prog
+    o = ctx.ob('leaf_semantics', 'R8', "Weekly: day table[weekday] inside validity / None outside, table = units on configured week "
+               "days and 0 otherwise over 0..6; Fixed: units inside / 0 outside; Direct: value stored for midnight(date) / None; "
+               "constructor and set_units key by midnight", floor=8)
+
+    def body(o):
+        # ---- Weekly
+        vf = _value_field(ctx, 'WeeklyCalendar')
+        if vf is None or vf[1] != 'mapping':
+            o.undecided(prog.func('calendar.WeeklyCalendar.get_available_units'), None, 'Weekly', "day table field not recognised")
+        else:
+            wf = vf[0]
+
+            def in_weekly(v, f):
+                m = match("self.$f[$k]", v)
+                if not m or m['f'] != wf:
+                    return ('unk', "not an entry of the day table")
+                mk = match("$d.weekday()", m['k'])
+                if mk and _name(mk['d'], f.params[1]):
+                    return None
+                if match("$d.$m()", m['k']) or (isinstance(m['k'], ast.BinOp)):
+                    return ('bad', f"the day table (keys 0 = Monday .. 6) is indexed by `{src(m['k'])}`, expected {f.params[1]}.weekday()")
+                return ('unk', "unrecognised index")
+            _bounded(ctx, o, 'WeeklyCalendar', None, in_weekly)
+            _weekly_table(ctx, o, wf)
+        # ---- Fixed
+        init = prog.func('calendar.FixedCalendar.__init__')
+        fu = _param_field(ctx, init, 'units')
+        if fu is None:
+            o.undecided(init, init.node, 'Fixed:units', "units is not stored unchanged into one field")
+        else:
+            o.site(init, fu[0], f"FixedCalendar.{unmangle(fu[1])} = units")
+
+            def in_fixed(v, f):
+                m = match("self.$f", v)
+                if m and m['f'] == fu[1]:
+                    return None
+                if isinstance(v, ast.Constant) or m:
+                    return ('bad', "expected the configured units")
+                return ('unk', "not the configured units")
+            _bounded(ctx, o, 'FixedCalendar', 0, in_fixed)
+        # ---- Direct
+        vf = _value_field(ctx, 'DirectCalendar')
+        if vf is None or vf[1] != 'mapping':
+            o.undecided(prog.func('calendar.DirectCalendar.get_available_units'), None, 'Direct', "table field not recognised")
+        else:
+            _direct(ctx, o, vf[0])
+    ctx.guarded(o, body)
+
+
+# ====================================================================================================== Resource: None -> 0
+def _none_zero(ctx):
+    prog = ctx.prog
+    o = ctx.ob('none_is_zero', 'R8', "Resource.get_available_units returns 0 where the calendar has no information, the calendar "
+               "value otherwise, for the date asked, and writes no state (no memo)", floor=2)
+
+    def body(o):
+        f = prog.func('resource.Resource.get_available_units')
+        date = f.params[1]
+        eff = Effects(prog, ctx.typer, ctx.cg)
+        ws = [w for w in eff.direct_writes(f) if w.root != 'fresh']
+        for w in ws:
+            o.refute(f, w.node, w.node, f"Resource.get_available_units writes state ({unmangle(w.field)}): the answer for a date is "
+                                        f"frozen/shared across queries (memo) instead of being the calendar's value for that date")
+        if ws:
+            return
+        o.site(f, f.node, "no state written")
+        ex = Expander(prog, f, ctx.typer)
+        calls = [c for c in walk_no_nested(f.node) if isinstance(c, ast.Call) and isinstance(c.func, ast.Attribute)
+                 and c.func.attr == 'get_available_units']
+        if len(calls) != 1:
+            o.undecided(f, f.node, 'calendar query', f"{len(calls)} calendar queries")
+            return
+        c = ex.expand(calls[0])
+        m = match("self.calendar.get_available_units($d)", c)
+        if not m:
+            o.undecided(f, calls[0], calls[0], "the query is not self.calendar.get_available_units(date)")
+            return
+        if not _name(m['d'], date):
+            o.refute(f, calls[0], calls[0], f"the calendar is asked about `{src(m['d'])[:60]}` instead of the date `{date}`")
+            return
+        for s in (None, 0, 1):
+            r = run_block(f.body, Ev([(c, s, 'sign')]), ex)
+            if r.kind in ('unknown',):
+                o.undecided(f, r.stmt, r.stmt, f"Resource.get_available_units: {r.why}")
+                return
+            if r.kind != 'return':
+                o.refute(f, r.stmt or f.node, r.stmt or 'return', f"Resource.get_available_units does not return a value when the calendar says {SIGN_NAME[s]} ({r.kind})")
+                return
+            v = r.value
+            k = facts.const_num(v)
+            if s is None:
+                if not (k is not None and k == 0 and not isinstance(getattr(v, 'value', 0), bool)):
+                    o.refute(f, r.stmt, r.stmt, f"Resource reports `{src(v)[:50]}` where its calendar has no information, expected 0")
+                    return
+            elif not (same(v, c) or (s == 0 and k is not None and k == 0)):
+                o.refute(f, r.stmt, r.stmt, f"Resource reports `{src(v)[:50]}` when the calendar value is {SIGN_NAME[s]}, expected the calendar value")
+                return
+        o.site(f, calls[0], "None -> 0, value otherwise")
+    ctx.guarded(o, body)
+
+
+# ====================================================================================================== availability search
+def _lin_dir(x, direction):
+    """x as a multiple of `direction` -> ('dir', k) | a constant -> ('const', k) | None"""
+    k = facts.const_num(x)
+    if k is not None:
+        return ('const', k)
+    if _name(x, direction):
+        return ('dir', 1)
+    if isinstance(x, ast.UnaryOp) and isinstance(x.op, ast.USub):
+        r = _lin_dir(x.operand, direction)
+        return (r[0], -r[1]) if r else None
+    if isinstance(x, ast.BinOp) and isinstance(x.op, ast.Mult):
+        a, b = _lin_dir(x.left, direction), _lin_dir(x.right, direction)
+        if a and b and 'const' in (a[0], b[0]):
+            kind = 'dir' if 'dir' in (a[0], b[0]) else 'const'
+            return (kind, a[1] * b[1])
+    return None
+
+
+def _day_step(v, direction):
+    """timedelta expression in days as ('dir', k) / ('const', k)"""
+    if isinstance(v, ast.UnaryOp) and isinstance(v.op, ast.USub):
+        r = _day_step(v.operand, direction)
+        return (r[0], -r[1]) if r else None
+    if isinstance(v, ast.BinOp) and isinstance(v.op, ast.Mult):
+        for a, b in ((v.left, v.right), (v.right, v.left)):
+            t, l = _day_step(a, direction), _lin_dir(b, direction)
+            if t and l and 'const' in (t[0], l[0]):
+                return ('dir' if 'dir' in (t[0], l[0]) else 'const', t[1] * l[1])
+        return None
+    if isinstance(v, ast.Call) and _name(v.func, 'timedelta'):
+        if len(v.args) == 1 and not v.keywords:
+            return _lin_dir(v.args[0], direction)
+        if not v.args and len(v.keywords) == 1:
+            kw = v.keywords[0]
+            r = _lin_dir(kw.value, direction)
+            if r is None:
+                return None
+            scale = {'days': 1.0, 'weeks': 7.0, 'hours': 1 / 24.0, 'minutes': 1 / 1440.0, 'seconds': 1 / 86400.0}.get(kw.arg)
+            if scale is None:
+                return None
+            return (r[0], r[1] * scale)
+    return None
+
+
+def _search(ctx):
+    prog = ctx.prog
+    o = ctx.ob('search', 'R8', "get_nearest_availability_date: counter from 0, `while counter < max_days`; forward tests the current "
+               "date, backward tests date - 1 day, capacity > 0; returns the unmodified current date; date += direction days and "
+               "counter += 1 once per iteration after the last use of the date; RuntimeError after the loop", floor=7)
+
+    def body(o):
+        f = prog.func('resource.IResource.get_nearest_availability_date')
+        for p in ('direction', 'max_days'):
+            if p not in f.params:
+                o.fail(f"get_nearest_availability_date has no parameter {p}")
+                return
+        D = f.params[1]
+        stmts = [s for s in f.body if not (isinstance(s, ast.Expr) and isinstance(s.value, ast.Constant))]
+        idx = [i for i, s in enumerate(stmts) if isinstance(s, ast.While)]
+        loops = [n for n in walk_no_nested(f.node) if isinstance(n, (ast.For, ast.While))]
+        if len(idx) != 1 or len(loops) != 1 or stmts[idx[0]].orelse:
+            o.undecided(f, f.node, 'loop', "the search is not a single top-level while loop")
+            return
+        pre, loop, tail = stmts[:idx[0]], stmts[idx[0]], stmts[idx[0] + 1:]
+        cfg = cfg_of(f)
+        fl = flow_of(f)
+        ex = Expander(prog, f, ctx.typer)
+        # ---- (a) horizon test
+        c = U.compare_atom(loop.test, True)
+        if c is None:
+            o.undecided(f, loop, loop.test, "loop test is not a comparison")
+            return
+        l, op, r = c
+        if _name(l, 'max_days'):
+            l, op, r = r, U._FLIP[op], l
+        if not (isinstance(l, ast.Name) and _name(r, 'max_days')):
+            o.undecided(f, loop, loop.test, "loop test does not compare a counter with max_days")
+            return
+        K = l.id
+        if any(d.kind != 'param' for d in fl.defs_of('max_days')):
+            o.undecided(f, loop, 'max_days', "max_days is reassigned")
+            return
+        if op == '<':
+            pass
+        elif op == '<=':
+            o.refute(f, loop, loop.test, f"`{src(loop.test)}` examines max_days + 1 dates: the horizon is max_days whole days (`{K} < max_days`)")
+            return
+        elif op in ('>', '>=', '=='):
+            o.refute(f, loop, loop.test, f"`{src(loop.test)}`: the loop must run while the counter is below the horizon (`{K} < max_days`)")
+            return
+        else:
+            o.undecided(f, loop, loop.test, f"loop test uses `{op}`")
+            return
+        inits = [s for s in pre if isinstance(s, ast.Assign) and any(_name(t, K) for t in s.targets)]
+        if len(inits) != 1:
+            o.undecided(f, loop, K, "the counter is not initialised exactly once before the loop")
+            return
+        k0 = facts.const_num(inits[0].value)
+        if k0 is None:
+            o.undecided(f, inits[0], inits[0], "counter start is not a constant")
+            return
+        if k0 != 0:
+            o.refute(f, inits[0], inits[0], f"the counter starts at {k0}: the search examines max_days - {k0} dates instead of max_days")
+            return
+        o.site(f, loop, f"{K} = 0; while {K} < max_days")
+        # ---- capacity queries
+        calls = []
+        for st in loop.body:
+            for n in ast.walk(st):
+                if isinstance(n, ast.Call) and isinstance(n.func, ast.Attribute) and n.func.attr == 'get_available_units':
+                    calls.append(n)
+        if not calls:
+            o.refute(f, loop, 'capacity', "the search never asks the resource for its capacity")
+            return
+        env_calls = {}
+        for n in calls:
+            xc = ex.expand(n)
+            if not _name(xc.func.value, f.params[0]) or not xc.args or xc.keywords and any(k.arg == 'date' for k in xc.keywords):
+                o.undecided(f, n, n, "capacity query in an unrecognised shape")
+                return
+            a = xc.args[0]
+            off = None
+            if _name(a, D):
+                off = 0
+            elif isinstance(a, ast.BinOp) and isinstance(a.op, (ast.Add, ast.Sub)) and _name(a.left, D):
+                st = _day_step(a.right, 'direction')
+                if st and st[0] == 'const':
+                    off = st[1] if isinstance(a.op, ast.Add) else -st[1]
+            if off is None:
+                o.undecided(f, n, n, f"capacity is queried for `{src(a)[:60]}`")
+                return
+            env_calls.setdefault(off, []).append(xc)
+        # ---- (b) one iteration, over direction x capacities
+        offs = sorted(env_calls)
+        need = {1: 0, -1: -1}
+        problems = False
+        seen_ok = set()
+        for direction in (1, -1):
+            for caps in itertools.product((0, 1), repeat=len(offs)):
+                env = [(_e('direction'), direction, 'exact')]
+                for off, cap in zip(offs, caps):
+                    for xc in env_calls[off]:
+                        env.append((xc, cap, 'sign'))
+                r = run_block(loop.body, Ev(env), ex)
+                capd = dict(zip(offs, caps))
+                dname = 'forward (direction=+1)' if direction == 1 else 'backward (direction=-1)'
+                tested = 'the current date' if direction == 1 else 'the day before the current date'
+                if r.kind == 'unknown':
+                    o.undecided(f, r.stmt, r.stmt, f"search iteration, {dname}: {r.why}")
+                    return
+                if r.kind == 'wouldraise':
+                    o.refute(f, r.stmt, r.stmt, f"search iteration, {dname}: {r.why}")
+                    return
+                if need[direction] not in capd:
+                    o.refute(f, loop, f"tested-day:{direction}",
+                             f"{dname} search never tests the capacity of {tested} (it queries day offsets {offs} from the current date)")
+                    problems = True
+                    break
+                want_ret = capd[need[direction]] == 1
+                if want_ret:
+                    if r.kind != 'return':
+                        others = {k: v for k, v in capd.items() if k != need[direction]}
+                        o.refute(f, loop, f"accept:{direction}", f"{dname} search does not stop although {tested} has positive capacity"
+                                 + (f" (it depends on day offset(s) {sorted(others)} instead)" if others else ''))
+                        problems = True
+                        break
+                    if not _name(r.value, D):
+                        o.refute(f, r.stmt, r.stmt, f"{dname} search returns `{src(r.value)[:60]}` instead of the unmodified current date `{D}` "
+                                                    f"(whole-day offset, same time of day)")
+                        problems = True
+                        break
+                    seen_ok.add(('ret', direction))
+                    continue
+                if r.kind == 'return':
+                    o.refute(f, r.stmt, r.stmt, f"{dname} search accepts a date although {tested} has no positive capacity "
+                                                f"(capacity by day offset: {capd})")
+                    problems = True
+                    break
+                if r.kind != 'fall' and r.kind != 'continue':
+                    o.refute(f, r.stmt, r.stmt, f"{dname} search leaves the loop ({r.kind}) on a date without capacity instead of stepping on")
+                    problems = True
+                    break
+                # the step
+                dsteps, ksteps = [], []
+                for st in r.executed:
+                    tg = st.targets if isinstance(st, ast.Assign) else ([st.target] if isinstance(st, ast.AugAssign) else [])
+                    if any(_name(t, D) for t in tg):
+                        dsteps.append(st)
+                    if any(_name(t, K) for t in tg):
+                        ksteps.append(st)
+                if r.kind == 'continue' or len(dsteps) != 1 or len(ksteps) != 1:
+                    if len(dsteps) == 0:
+                        o.refute(f, loop, f"nostep:{direction}", f"{dname} search: an iteration without capacity does not move the date")
+                    elif len(ksteps) == 0:
+                        o.refute(f, loop, f"nocount:{direction}", f"{dname} search: an iteration does not advance the counter `{K}`: the max_days horizon is not enforced")
+                    else:
+                        o.refute(f, loop, f"steps:{direction}", f"{dname} search: the date / the counter is changed {len(dsteps)} / {len(ksteps)} times in one iteration")
+                    problems = True
+                    break
+                st = dsteps[0]
+                delta = None
+                if isinstance(st, ast.AugAssign) and isinstance(st.op, (ast.Add, ast.Sub)):
+                    delta = (_day_step(ex.expand(st.value), 'direction'), 1 if isinstance(st.op, ast.Add) else -1)
+                elif isinstance(st, ast.Assign):
+                    v = ex.expand(st.value, stop={D})
+                    if isinstance(v, ast.BinOp) and isinstance(v.op, (ast.Add, ast.Sub)) and _name(v.left, D):
+                        delta = (_day_step(v.right, 'direction'), 1 if isinstance(v.op, ast.Add) else -1)
+                    elif isinstance(v, ast.BinOp) and isinstance(v.op, ast.Add) and _name(v.right, D):
+                        delta = (_day_step(v.left, 'direction'), 1)
+                if delta is None or delta[0] is None:
+                    o.undecided(f, st, st, "date step is not `date +/- timedelta(..)` in days of direction")
+                    return
+                (kind, k), sign = delta
+                moved = sign * k * (direction if kind == 'dir' else 1)
+                if moved != direction:
+                    o.refute(f, st, st, f"{dname} search moves the date by {moved:g} day(s) per iteration, expected {direction:+d} "
+                                        f"(whole days, one at a time, in the search direction)")
+                    problems = True
+                    break
+                st = ksteps[0]
+                inc = None
+                if isinstance(st, ast.AugAssign) and isinstance(st.op, ast.Add):
+                    inc = facts.const_num(st.value)
+                elif isinstance(st, ast.Assign):
+                    m = match(f"{K} + $c", st.value) or match(f"$c + {K}", st.value)
+                    inc = facts.const_num(m['c']) if m else None
+                if inc is None:
+                    o.undecided(f, st, st, "counter update is not `counter += constant`")
+                    return
+                if inc != 1:
+                    o.refute(f, st, st, f"the counter advances by {inc:g} per examined date: the horizon is max_days dates, expected += 1")
+                    problems = True
+                    break
+                seen_ok.add(('step', direction))
+            if problems:
+                break
+        if problems:
+            return
+        for tag in sorted(seen_ok):
+            o.site(f, loop, {'ret': "returns the current date on capacity > 0 of the tested day",
+                             'step': "date += direction days, counter += 1"}[tag[0]] + f" (direction {tag[1]:+d})")
+        # ---- (c) the step comes after the last use of the date in an iteration
+        tn = cfg.node_of(loop)
+        for n in walk_no_nested(loop):
+            if isinstance(n, (ast.Assign, ast.AugAssign)):
+                tg = n.targets if isinstance(n, ast.Assign) else [n.target]
+                if any(_name(t, D) for t in tg):
+                    sn = cfg.node_of(n)
+                    after = cfg._reachable_from(sn, avoid={tn.id}) - {sn.id}
+                    for i in after:
+                        a = cfg.nodes[i].ast
+                        if a is None or cfg.nodes[i] is tn:
+                            continue
+                        if i in (cfg.exit.id, cfg.raise_exit.id):
+                            continue
+                        if isinstance(a, ast.Return) or any(isinstance(x, ast.Name) and x.id == D and isinstance(x.ctx, ast.Load)
+                                                             for x in U._walk(a)):
+                            if not cfg.can_reach(cfg.nodes[i], tn) and not isinstance(a, ast.Return):
+                                continue          # code after the loop (the error message)
+                            o.refute(f, n, n, f"the date is moved before it is tested / returned in the same iteration "
+                                              f"(`{src(a).splitlines()[0][:60]}` runs after `{src(n)}`): the search tests or returns the wrong day")
+                            return
+        o.site(f, loop, "date step is the last use of the date in an iteration")
+        # ---- (d) after the loop
+        r = run_block(tail, Ev([]), ex)
+        if r.kind == 'raise':
+            from sa.effects import exc_name
+            if exc_name(r.stmt) == 'RuntimeError':
+                o.site(f, r.stmt, "RuntimeError after the horizon")
+            else:
+                o.refute(f, r.stmt, r.stmt, f"an exhausted search raises {exc_name(r.stmt)}, expected RuntimeError")
+        elif r.kind in ('return', 'fall'):
+            o.refute(f, r.stmt or f.node, r.stmt or 'after-loop', "an exhausted search returns a value instead of raising RuntimeError")
+        else:
+            o.undecided(f, r.stmt, r.stmt, f"code after the loop: {r.why}")
+    ctx.guarded(o, body)
